@@ -9,7 +9,12 @@ which is replayed through YgmVerif.Cache.step: every packed (key, value) must be
 about to send, the per-owner container operations are folded by the model, every adapter message must be
 received by the next NLNR hop the model computes, and the model's stored values must equal the real final
 contents.  Direct oracle: final contents (and the contents after every barrier) equal the per-key fold of
-the script's contributions, each key only on its owner, values of different keys never combined."""
+the script's contributions, each key only on its owner, values of different keys never combined.
+Two more dimensions: (a) for about a quarter of the cases the whole scenario (target, adapter, reduce_by_key_map) runs
+on a sub-communicator made by MPI_Comm_split and on the world communicator in the same process, in either order,
+through the same template instantiations — both runs are judged (owners, next hops and folds of the communicator
+they ran on); (b) cases with TWO adapters of the same type (over two maps / two arrays) alive at once on one
+communicator, disjoint key sets that share cache slots, contributions interleaved, each judged on its own."""
 import os
 
 from lib import common as C
@@ -33,6 +38,10 @@ META = {
 
 RULE = ("seeded scripts as in C15 with values drawn from 50 per-operator values; target map<uint64,V> (hash owner) or array<V> (block owner, length 3*2^20+2000 so that indices "
         "collide in a cache slot); operator sum/max/xor and four operators for which the value-initialised T{} is not neutral (min over 10..59, product mod 1000003 over 2..51, bitwise and over values sharing bit 41, signed max over -1..-50; the array is then created with an initial value that is neutral on that range); a case = (script, target, operator, layout, routing, buffer KB, policy, sim seed); "
+        "subcomm 1/2 (about a quarter of the cases): the same scenario also runs, before/after the world run and in the same process, on a "
+        "sub-communicator from MPI_Comm_split (split 0: parity of the on-node index, 1: parity of the node / halves), script ranks and "
+        "destinations >= its size issue nothing; twin: two adapters (and targets) of the same type alive at once, key k belongs to "
+        "pair (k >> 20) >= J, each with its own fold and model replay; "
         "non-trivial = a contribution was issued while the rank was inside a flush's send, or a value was combined at an intermediate rank")
 M64 = 1 << 64
 PRIME = 1000003
@@ -95,6 +104,14 @@ def make_cases(tier, seed):
                       "hot": 70, "hpct": 0, "fwdpct": 0, "vmax": 50, "routing": ROUTINGS[g.below(3)], "buffer_kb": [0, 1][g.below(2)],
                       "policy": POLICIES[g.below(5)], "sim_seed": 1 + g.below(1 << 20), "mode": "rbkvec" if i % 2 == 0 else "rbkbag",
                       "op": [3, 4, 0, 5, 6, 3, 1, 2][i % 8]})
+    c15.add_dimensions(cases, g)
+    for c in cases:
+        if c["mode"] in ("rbkvec", "rbkbag"):
+            c["twin"] = 0           # reduce_by_key_map creates its own map and adapter
+        if c["mode"] == "rarr":
+            if c["twin"]:
+                c["J"] = min(c["J"], 2)
+            c["len"] = (2 if c["twin"] else 1) * c["J"] * S + 2000
     return cases
 
 
@@ -107,15 +124,12 @@ def kv3(ws):
     return d
 
 
-def check_reduce(res, case, sr, universe, contrib, model_ok):
-    n = case["nodes"] * case["ppn"]
+def judge_reduce(res, case, view, c, ncont, ops, model_ok, per_rank, owner):
+    """one adapter + target on one communicator: oracle + model replay; returns (fails, mismatch, pinned_explains)"""
+    g = len(view["members"])
     mode, op = case["mode"], case["op"]
-    sig_base = "reducing_adapter"
-    if sr.verdict != "ok":
-        res.oracle_failures.append({"what": f"run failed: {sr.verdict} {sr.stderr[-200:]}", "signature": sig_base + "-run-" + sr.verdict.split(":")[0], "case": case})
-        return
-    outs = {r: c15.outs_by_tag(sr.outs.get(r, [])) for r in range(n)}
-    owner = {int(w[0]): int(w[1]) for w in outs[0].get("own", [])}
+    cid = c15.container_of(case)
+    contrib = [x for x in c15.contributions(ops, g) if cid(x[1]) == c]
     fails = []
 
     def expected(upto):
@@ -126,73 +140,53 @@ def check_reduce(res, case, sr, universe, contrib, model_ok):
         return {k: fold(op, vs) for k, vs in by.items()}
 
     final = expected(10 ** 9)
-    # ---- direct oracle
-    real_by_rank = {}
+    outs = {r: c15.outs_by_tag(view["outs"].get(r, [])) for r in range(g)}
+
+    def nth(rows, i):
+        return rows[i] if i < len(rows) else []
 
     def contents(tag_rows, what, want):
         allkv = {}
-        for r in range(n):
-            d = kv3(tag_rows[r])
-            for k, (v, gk) in d.items():
+        for r in range(g):
+            for k, (v, gk) in kv3(tag_rows[r]).items():
                 if k in allkv:
                     fails.append((f"{what}: key present on two ranks", {"key": k}))
                 if owner.get(k) is not None and owner[k] != r:
                     fails.append((f"{what}: key stored on a rank that does not own it", {"key": k, "rank": r, "owner": owner[k]}))
                 if gk != k:
                     fails.append((f"{what}: values contributed for different keys were combined", {"key": k, "ghost": gk}))
+                if cid(k) != c:
+                    fails.append((f"{what}: key of the other container", {"key": k}))
                 allkv[k] = v
         if allkv != want:
             bad = {k: (allkv.get(k), want.get(k)) for k in set(allkv) | set(want) if allkv.get(k) != want.get(k)}
             fails.append((f"{what} != per-key fold of the contributions", {"key: (real, expected)": bad}))
-        return allkv
 
-    for r in range(n):
-        real_by_rank[r] = {k: v for k, (v, _) in kv3(outs[r].get("kv", [[]])[0]).items()}
-    contents({r: outs[r].get("kv", [[]])[0] for r in range(n)}, "final contents", final)
+    real_by_rank = {r: {k: v for k, (v, _) in kv3(nth(outs[r].get("kv", []), c)).items()} for r in range(g)}
+    contents({r: nth(outs[r].get("kv", []), c) for r in range(g)}, "final contents", final)
     if mode in ("rmap", "rarr"):
         for ph in range(case["phases"]):
             rows = {}
-            for r in range(n):
+            for r in range(g):
                 row = [w for w in outs[r].get("snap", []) if w and int(w[0]) == ph]
-                rows[r] = row[0][1:] if row else []
+                rows[r] = nth(row, c)[1:]
             contents(rows, f"contents after barrier {ph} (adapter alive)", expected(ph))
     else:
-        sizes = {int(outs[r].get("size", [["-1"]])[0][0]) for r in range(n)}
+        sizes = {int(outs[r].get("size", [["-1"]])[0][0]) for r in range(g)}
         if sizes != {len(final)}:
             fails.append(("reduce_by_key_map: size != number of distinct keys", {"real": sorted(sizes), "expected": len(final)}))
 
-    res.evaluations += 1
-    res.count("runs")
-    res.count(f"target-{mode}")
-    res.count(f"op-{OPNAMES[op]}")
-    res.count(f"layout-{case['nodes']}x{case['ppn']}")
-    res.count(f"buffer-{case['buffer_kb']}KB")
-    res.count(f"routing-{case['routing']}")
-    res.count(f"policy-{case['policy']}")
-
-    # ---- correspondence
-    mismatch, pinned_explains, nested_same = None, None, 0
+    mismatch, pinned_explains = None, None
     if mode in ("rmap", "rarr"):
-        ev = c15.rank_events(sr, n)
-        per_rank = [c15.tokens(ev[r], me=r, owner=owner) for r in range(n)]
-        stats = {k: sum(st[k] for _, st in per_rank) for k in ("inserts", "nested_inserts", "nested_same_slot", "packs", "applied", "delivered", "unbalanced")}
-        nested_same = stats["nested_same_slot"]
-        res.count("contributions", stats["inserts"])
-        res.count("contributions-issued-inside-a-send", stats["nested_inserts"])
-        res.count("contributions-into-a-slot-being-flushed", stats["nested_same_slot"])
-        res.count("partial-values-combined-at-a-next-hop", stats["delivered"])
-        res.count("container-operations", stats["applied"])
-        if stats["nested_inserts"] > 0 or stats["delivered"] > 0:
-            res.distinct.add((case["script_seed"], mode, op, case["nodes"], case["ppn"], case["routing"], case["buffer_kb"], case["policy"], case["sim_seed"]))
-        if stats["inserts"] != len(contrib) or stats["unbalanced"]:
-            fails.append(("harness log is not the script (contributions logged != scripted)", {"logged": stats["inserts"], "scripted": len(contrib)}))
+        logged = sum(per_rank[r][1]["ib_by_cont"][c] for r in range(g))
+        if logged != len(contrib):
+            fails.append(("harness log is not the script (contributions logged != scripted)", {"logged": logged, "scripted": len(contrib)}))
         if model_ok:
             own = ",".join(f"{k}:{o}" for k, o in sorted(owner.items()))
-            lines = [f"fixed {S} {op} {r} {own} | " + " ".join(per_rank[r][0]) for r in range(n)]
+            lines = [f"fixed {S} {op} {r} {own} | " + " ".join(per_rank[r][0][c]) for r in range(g)]
             parsed = [c15.parse_model(a) for a in C.model("reduce", lines)]
-            res.traces_validated += n
-            sent = []       # (dest, k, v) of adapter messages according to the model
-            hopq = []
+            res.traces_validated += g
+            sent, hopq = [], []
             for r, p in enumerate(parsed):
                 if not p["ok"]:
                     mismatch = mismatch or {"relation": "every rank's event history is accepted by Cache.step (repaired order)", "what": f"rank {r}: {p['why']}"}
@@ -203,56 +197,111 @@ def check_reduce(res, case, sr, universe, contrib, model_ok):
                 if p["stored"] != real_by_rank[r]:
                     mismatch = mismatch or {"relation": "values the model folds into the container on each owner = real final contents",
                                             "what": f"rank {r}: model {p['stored']} real {real_by_rank[r]}"}
-                for (c, k, v) in p["out"]:
+                for (cc, k, v) in p["out"]:
                     if k not in owner:
                         mismatch = mismatch or {"relation": "every packed value belongs to one key of the script", "what": f"rank {r} packed key {k}"}
-                    elif c == 0:
+                    elif cc == 0:
                         hopq.append((r, k, v))
                     elif owner.get(k) != r:
                         mismatch = mismatch or {"relation": "container operations are issued by the owner only", "what": f"rank {r} key {k}"}
             if hopq:
-                hops = C.model("reduce", [f"hop {case['ppn']} {r} {owner[k]}" for (r, k, v) in hopq])
+                hops = C.model("reduce", [f"hop {view['ppn']} {r} {owner[k]}" for (r, k, v) in hopq])
                 sent = sorted((int(h), k, v) for h, (r, k, v) in zip(hops, hopq))
-            recv = sorted((r, k, v) for r, (_, st) in enumerate(per_rank) for (k, v) in st["delivered_kv"])
+            recv = sorted((r, k, v) for r in range(g) for (k, v) in per_rank[r][1]["delivered_kv"][c])
             if mismatch is None and sent != recv:
                 extra = [x for x in recv if x not in sent][:3]
                 missing = [x for x in sent if x not in recv][:3]
                 mismatch = {"relation": "every flushed partial value is received once by the NLNR next hop towards its owner (Cache.nlnrHop)",
                             "what": f"model sends {len(sent)}, real receives {len(recv)}; not received {missing}; unexpected {extra}"}
             if mismatch or fails:
-                pl = [f"pinned {S} {op} {r} {own} | " + " ".join(per_rank[r][0]) for r in range(n)]
+                pl = [f"pinned {S} {op} {r} {own} | " + " ".join(per_rank[r][0][c]) for r in range(g)]
                 pp = [c15.parse_model(a) for a in C.model("reduce", pl)]
                 pinned_explains = all(p["ok"] for p in pp) and all(p["stored"] == real_by_rank[r] for r, p in enumerate(pp))
-        if len(res.samples) < 3 and stats["nested_same_slot"] > 0 and stats["delivered"] > 0:
-            res.sample({"case": {k: case[k] for k in ("mode", "op", "nodes", "ppn", "routing", "buffer_kb", "policy", "sim_seed", "script_seed")},
-                        "contributions": stats["inserts"], "into_a_slot_being_flushed": stats["nested_same_slot"],
-                        "combined_at_next_hop": stats["delivered"], "final": dict(list(final.items())[:6]),
-                        "rank0_first_labels": " ".join(per_rank[0][0][:40])})
-    else:
-        # no harness-level insert events here (the library calls async_reduce itself): only note whether a received partial
-        # value was combined while this rank was inside a send
-        ev = c15.rank_events(sr, n)
-        for r in range(n):
-            depth = 0
-            for e in ev[r]:
-                if e == "S":
-                    depth += 1
-                elif e == "R":
-                    depth -= 1
-                elif e.startswith("uk") and depth > 0:
-                    nested_same += 1
-        res.count("partial-values-received-inside-a-send(reduce_by_key)", nested_same)
-        res.distinct.add((case["script_seed"], mode, op, case["nodes"], case["ppn"], case["routing"], case["buffer_kb"]))
-    if fails:
-        sig = sig_base + ("-reentrant-flush" if (pinned_explains or (pinned_explains is None and nested_same > 0)) else "-fold-mismatch")
-        what, detail = fails[0]
-        res.oracle_failures.append({"what": what + (" [the pinned statement order (PinnedCache) replays this run to exactly these contents]" if pinned_explains else ""),
-                                    "signature": sig,
-                                    "case": dict(case, detail=detail, all_failed_clauses=[w for w, _ in fails][:8],
-                                                 contributions_into_a_slot_being_flushed=nested_same, model=mismatch,
-                                                 pinned_model_explains_run=pinned_explains)})
-    elif mismatch:
-        res.corr_failures.append(dict(mismatch, case=case))
+    return fails, mismatch, pinned_explains, final
+
+
+def check_reduce(res, case, sr, universe, ops, model_ok):
+    mode, op = case["mode"], case["op"]
+    sig_base = "reducing_adapter"
+    if sr.verdict != "ok":
+        res.oracle_failures.append({"what": f"run failed: {sr.verdict} {sr.stderr[-200:]}", "signature": sig_base + "-run-" + sr.verdict.split(":")[0], "case": case})
+        return
+    ncont = 2 if case.get("twin") else 1
+    cid = c15.container_of(case)
+    res.evaluations += 1
+    res.count("runs")
+    res.count(f"target-{mode}")
+    res.count(f"op-{OPNAMES[op]}")
+    res.count(f"layout-{case['nodes']}x{case['ppn']}")
+    res.count(f"buffer-{case['buffer_kb']}KB")
+    res.count(f"routing-{case['routing']}")
+    res.count(f"policy-{case['policy']}")
+    res.count(f"subcomm-{['none', 'sub-then-world', 'world-then-sub'][case.get('subcomm', 0)]}")
+    if ncont > 1:
+        res.count("two-adapters-at-once")
+    nontrivial = False
+    for view in c15.views(case, sr):
+        g = len(view["members"])
+        res.count(f"communicator-runs-{view['name']}")
+        if view["bad"]:
+            res.oracle_failures.append({"what": "scenario did not run on the expected communicator: " + view["bad"], "signature": sig_base + "-subcomm-layout", "case": case})
+            continue
+        owner = {int(w[0]): int(w[1]) for w in c15.outs_by_tag(view["outs"].get(0, [])).get("own", [])}
+        nested_same, per_rank, stats = 0, None, None
+        if mode in ("rmap", "rarr"):
+            per_rank = [c15.tokens(view["events"][r], me=r, owner=owner, cid=cid, ncont=ncont) for r in range(g)]
+            for r in range(g):     # harness-issued contributions per container
+                cnt = [0] * ncont
+                for e in view["events"][r]:
+                    if e.startswith("ib "):
+                        cnt[cid(int(e.split()[1]))] += 1
+                per_rank[r][1]["ib_by_cont"] = cnt
+            stats = {k: sum(st[k] for _, st in per_rank) for k in ("inserts", "nested_inserts", "nested_same_slot", "packs", "applied", "delivered", "unbalanced", "cross_container_nesting")}
+            nested_same = stats["nested_same_slot"]
+            res.count("contributions", stats["inserts"])
+            res.count("contributions-issued-inside-a-send", stats["nested_inserts"])
+            res.count("contributions-into-a-slot-being-flushed", stats["nested_same_slot"])
+            res.count("contributions-issued-inside-a-send-of-the-other-adapter", stats["cross_container_nesting"])
+            res.count("partial-values-combined-at-a-next-hop", stats["delivered"])
+            res.count("container-operations", stats["applied"])
+            nontrivial = nontrivial or stats["nested_inserts"] > 0 or stats["delivered"] > 0
+        else:
+            # no harness-level insert events here (the library calls async_reduce itself): only note whether a received partial
+            # value was combined while this rank was inside a send
+            for r in range(g):
+                depth = 0
+                for e in view["events"][r]:
+                    if e == "S":
+                        depth += 1
+                    elif e == "R":
+                        depth -= 1
+                    elif e.startswith("uk") and depth > 0:
+                        nested_same += 1
+            res.count("partial-values-received-inside-a-send(reduce_by_key)", nested_same)
+            nontrivial = True
+        for c in range(ncont):
+            fails, mismatch, pinned_explains, final = judge_reduce(res, case, view, c, ncont, ops, model_ok, per_rank, owner)
+            if stats and stats["unbalanced"]:
+                fails.append(("harness log is unbalanced", {"events": stats["unbalanced"]}))
+            if fails:
+                sig = sig_base + ("-reentrant-flush" if (pinned_explains or (pinned_explains is None and nested_same > 0)) else "-fold-mismatch")
+                what, detail = fails[0]
+                res.oracle_failures.append({"what": c15.where(view, c, ncont) + what + (" [the pinned statement order (PinnedCache) replays this run to exactly these contents]" if pinned_explains else ""),
+                                            "signature": sig,
+                                            "case": dict(case, failed_on=view["name"], container=c, detail=detail, all_failed_clauses=[w for w, _ in fails][:8],
+                                                         contributions_into_a_slot_being_flushed=nested_same, model=mismatch,
+                                                         pinned_model_explains_run=pinned_explains)})
+            elif mismatch:
+                res.corr_failures.append(dict(mismatch, what=c15.where(view, c, ncont) + mismatch["what"], case=case))
+            if stats and len(res.samples) < 3 and stats["nested_same_slot"] > 0 and stats["delivered"] > 0 and (ncont > 1 or case.get("subcomm") or len(res.samples) < 1):
+                res.sample({"case": {k: case[k] for k in ("mode", "op", "nodes", "ppn", "routing", "buffer_kb", "policy", "sim_seed", "script_seed", "subcomm", "split", "twin")},
+                            "communicator": view["name"], "ranks": g, "container": c,
+                            "contributions": stats["inserts"], "into_a_slot_being_flushed": stats["nested_same_slot"],
+                            "combined_at_next_hop": stats["delivered"], "final": dict(list(final.items())[:6]),
+                            "rank0_first_labels": " ".join(per_rank[0][0][c][:40])})
+    if nontrivial:
+        res.distinct.add((case["script_seed"], mode, op, case["nodes"], case["ppn"], case["routing"], case["buffer_kb"], case["policy"], case["sim_seed"],
+                          case.get("subcomm", 0), case.get("split", 0), case.get("twin", 0)))
 
 
 def run_one(binary, sc, case, idx):
@@ -276,8 +325,8 @@ def run(tier, seed, model_ok=True):
             i, case = ic
             return (case,) + run_one(binary, sc, case, i)
         results = C.pmap(do, list(enumerate(cases)), workers=max(2, C.NCPU // 2))
-    for case, sr, universe, contrib in results:
-        check_reduce(res, case, sr, universe, contrib, model_ok)
+    for case, sr, universe, ops in results:
+        check_reduce(res, case, sr, universe, ops, model_ok)
     # a disagreement hidden by an idempotent operator or a lucky schedule: same script under other schedules, with the
     # sum (shows lost and duplicated values) and with min over positives (shows an injected T{})
     c15.search_around(res, binary, check_reduce, run_one, model_ok, force=[{"op": 0}, {"op": 3}])
@@ -296,8 +345,8 @@ def replay(data):
         return False
     res = C.Result()
     with c15.Scratch() as sc:
-        sr, universe, contrib = run_one(binary, sc, case, 0)
-    check_reduce(res, case, sr, universe, contrib, os.path.exists(C.model_bin()))
+        sr, universe, ops = run_one(binary, sc, case, 0)
+    check_reduce(res, case, sr, universe, ops, os.path.exists(C.model_bin("reduce")))
     for f in res.oracle_failures:
         print("oracle:", f["what"], f["signature"], f["case"].get("detail"))
     for f in res.corr_failures:
